@@ -63,7 +63,8 @@ CHECKS["C20"] = dict(
     text="Coq theorems over a model of VariablePayload's interpreted methods and of the three code generators of vp_compile: for "
          "every well-formed definition (any formats incl. bits/nested/lists, any hooks) the generated to_pack_list equals the "
          "interpreted pack list, the generated from_unpack_list builds the same instance from every decoded argument list, the "
-         "generated __init__ assigns the same fields from positional or keyword arguments, omitted arguments take the definition's "
+         "generated __init__ accepts exactly the positional/keyword/mixed calls the interpreted one accepts and assigns the same fields "
+         "(compiled_init_equals_interpreted_mixed, an iff), omitted arguments take the definition's "
          "defaults (under the checked render-faithfulness hypothesis). The generator model is compared syntactically with the "
          "source text the real generators emit, for every shipped definition and generated ones, on every run; plain, compiled "
          "and dataclass classes are built from each definition and compared on bytes and decoded fields with the real Serializer.",
